@@ -92,8 +92,8 @@ def classes(rec, truth):
             rec.cls("max_end_not_on_last_note")
 
 
-def judge(rec, case, keys=None):
-    out, ob, d = mcheck.judge(rec, ("C03",), case)
+def judge(rec, case, keys=None, want=None):
+    out, ob, d = mcheck.judge(rec, ("C03",), case, want=want)
     if d is not None and not d.of("C03"):
         classes(rec, case["truth"])
         for k in keys or []:
@@ -141,7 +141,7 @@ def run_shard(shard, rec, tier, seed):
                                  n_globals=0)
             keys = [body for name, body in case["sections"] if name not in ("Song", "SyncTrack", "Events")
                     and any(" = N " in ln and not ln.rstrip().endswith(" 0") for ln in body)]
-            judge(rec, case, keys)
+            judge(rec, case, keys, want=mcheck.all_present(case, rng) if i % 5 == 3 else None)
             keep.add(case)
             if i < 1:
                 rec.sample({"text_head": case["text"][:300]})
